@@ -63,7 +63,7 @@ class C13(Prop):
     rule = ("table blocks with injected defects: illegal numeric / onoff / datetime cells (text and native), duplicated "
             "column names, rows cut short; fixer configurations strict instance, lenient stock, lenient custom subclass, a second custom subclass with falsy replacements that returns a new list for short rows, "
             "class instead of instance; every 3rd case is a two-table stream sharing one fixer; expectation computed "
-            "from the injected defect set; non-trivial = at least one defect; distinct = distinct (grid, configuration)")
+            "from the injected defect set; the caller's cell grid (rows as lists) must be unchanged after the read; non-trivial = at least one defect; distinct = distinct (grid, configuration)")
     assumptions = [
         "a custom fixer returns a value of the column's own type",
         "the filler for cut-off cells is the text 'NaN' (read as missing in numeric/datetime columns, as illegal in onoff columns, as text in text columns)",
@@ -201,6 +201,9 @@ class C13(Prop):
             return [f"crash-{obs['final'][2].split(':')[0]}: {obs['final'][2][:150]}"]
         evs = obs["events"]
         issues = [e for e in evs if e["k"] == "issue"]
+        if obs.get("input_altered"):
+            # "nothing else is altered" includes the cell grid handed in: a repair pads the parser's own copy of a row
+            return [f"input-altered: the read changed rows {obs['input_altered'][:5]} of the caller's cell grid"]
         first_issue = next((e for e in issues if e["origin"] == 0), None)
         fails = self._check_table("", case["exp"], case["dups"], case["shorts"], case["fixer"], evs, first_issue,
                                   first_issue["text"] if first_issue else "", case.get("force_abort", False))
